@@ -367,6 +367,8 @@ fn execute(scn: &BScn, property: &str) -> RunOutcome {
     let mut awaiting_user_key: Option<(Key, usize)> = None;
     // an Ended event naming the main entity was sent in the previous frame
     let mut ended_event_in_previous_frame = false;
+    // ... and the main (governed) animator itself turned Ended in the previous frame
+    let mut main_ended_in_previous_frame = false;
     // the selector's `timelines` map as edited at run time (key -> index into cfg.tls)
     let mut keys_now: Vec<Option<usize>> = cfg.keys.clone();
     // the entry of the key in effect was edited after that key was acted on: the animator keeps
@@ -624,6 +626,9 @@ fn execute(scn: &BScn, property: &str) -> RunOutcome {
         }
         stale_ended = swapped_while_ended;
         // ---- side entities: their own assembly schedule ----------------------------------------
+        let animator_touched_by_op = frame.ops.iter().any(|op| {
+            matches!(op, BOp::Enable(_) | BOp::Reset | BOp::SetTimeline { .. } | BOp::Seek { .. })
+        });
         let mut late_touched = false;
         {
             let r = catch(|| {
@@ -784,7 +789,8 @@ fn execute(scn: &BScn, property: &str) -> RunOutcome {
                 && chain_lookup(key.unwrap()).is_some()
                 && before.acted == key
                 && before.state == AnimationState::Ended
-                && (ended_event_in_previous_frame || other_ended_in_this_frame)
+                && (main_ended_in_previous_frame
+                    || (animator_touched_by_op && (ended_event_in_previous_frame || other_ended_in_this_frame)))
         };
         let hook_retarget = cfg.selector && after.acted != before.acted && after.acted.is_some();
         let self_loop_in_one_frame = !hook_retarget
@@ -1271,7 +1277,15 @@ fn execute(scn: &BScn, property: &str) -> RunOutcome {
                     (before.other, after.other),
                     (Some((sb, _, _)), Some((sa, _, _))) if sb != AnimationState::Ended && sa == AnimationState::Ended
                 );
-                let fresh_event = ended_event_in_previous_frame || other_ended_now;
+                // The cause has to be the end of the *governed* animator, announced in the previous
+                // frame - not the end of some other animator on the entity finding the governed one
+                // resting at an end it reached long ago (possibly while the chain had no entry for
+                // the key, or was not attached). One narrow exception is tolerated: the user
+                // wrote to the Ended animator between the frames (enable flag, position) and
+                // another animator's end arrives at the same time - the plugin cannot tell that
+                // from a fresh end without a marker of its own.
+                let fresh_event = main_ended_in_previous_frame
+                    || (animator_touched_by_op && (ended_event_in_previous_frame || other_ended_now));
                 let justified = chain_present
                     && chain_lookup(key_before) == Some(key_after)
                     && before.acted == Some(key_before)
@@ -1291,7 +1305,7 @@ fn execute(scn: &BScn, property: &str) -> RunOutcome {
                         && before.acted == Some(key_before)
                         && before.state == AnimationState::Ended
                     {
-                        "no animator on the entity ended in the previous frame or in this one (the end the chain reacts to was announced long ago)"
+                        "the governed animator did not end in the previous frame (it has been resting at its end for longer; what ended now is another animator on the entity, or nothing)"
                     } else if before.acted != Some(key_before) {
                         "that key had been assigned since the last animation ended and never played (the animator was still set up for another key)"
                     } else if before.state != AnimationState::Ended {
@@ -1420,6 +1434,7 @@ fn execute(scn: &BScn, property: &str) -> RunOutcome {
             break;
         }
         ended_event_in_previous_frame = events.iter().any(|(e, st)| *e == w.entity && *st == AnimationState::Ended);
+        main_ended_in_previous_frame = state_base != AnimationState::Ended && after.state == AnimationState::Ended;
     }
     out.obs_hash = h.0;
     out
